@@ -129,6 +129,8 @@ fn main() {
                     gen_serve::gen_c06(&mut rng.fork(), false, &mut emit_serve);
                     // every If-Range outcome x Range shape (Content-Length must not depend on it)
                     gen_serve::gen_c05(&mut rng.fork(), false, &mut emit_serve);
+                    // the announced multipart length around 2^64 (206 below, 413 from there on)
+                    gen_serve::gen_overflow_corner(&mut rng.fork(), false, &mut emit_serve);
                 }
                 "C02" => {
                     gen_serve::gen_mixed(&mut rng, n_mixed, "c02", &mut emit_serve);
